@@ -8,39 +8,60 @@ states the property on the real objects (`is`, `id()`, mutation of copies); `Neu
 as a caller on files.
 """
 import copy
+import itertools
 import json
 import os
 import shutil
+import sys
 import tempfile
 
 import fw
 
-LEAN_PROPS = ["NmlVerif.Props.C17"]
+LEAN_PROPS = ["NmlVerif.Props.C17", "NmlVerif.Props.C17Graph", "NmlVerif.Props.C17Gen"]
+# helper theorems that carry the argument (audited for axioms as well)
+EXTRA_THEOREMS = ["NmlVerif.PyHeap.deepcopy_spec", "NmlVerif.PyHeap.visit_spec", "NmlVerif.PyHeap.deepcopy_total",
+                  "NmlVerif.PyHeap.CopySpec.new_refs", "NmlVerif.PyHeap.CopySpec.copy_of", "NmlVerif.PyHeap.CopySpec.injective",
+                  "NmlVerif.FixExternalH.fixSlot_spec", "NmlVerif.FixExternalH.fixInPlace_spec",
+                  "NmlVerif.FixExternalH.cellsStable_of_copy", "NmlVerif.FixExternalH.cellsStable_of_wf",
+                  "NmlVerif.FixIR.hand_fix_run", "NmlVerif.FixIR.rest_run", "NmlVerif.FixIR.fixSlot_run",
+                  "NmlVerif.FixIR.forItems_sim"]
 LEVEL = "proof"
 RULE = ("random documents: 0-5 cells (thorough 0-8) + 0-2 Cell2CaPools, per cell and kind one of {nothing, embedded, "
         "embedded+attribute, reference to a local / included / nested-included / undefined id}, 0-3 local definitions and "
-        "0-3 included files (ids collide on purpose: same id locally and in files, twice in one list, same id for both "
-        "kinds), hrefs plain / './' / 'sub/' / '../' / absolute / missing, two working directories, objects built by "
-        "constructors / read back from a file (parent_object_ set) / mixed / with aliased objects; each case is run with overwrite=True and "
-        "overwrite=False. Non-trivial = at least two cells share one reference that resolves; distinct = distinct "
-        "canonical (case, overwrite) descriptions. Second stream: NeuroMLXMLParser.parse on files with nested includes.")
+        "0-3 included files - XML or HDF5 (.nml.h5 / .h5, read with optimized=True) - (ids collide on purpose: same id locally "
+        "and in files, in two included files, twice in one list, same id for both kinds; ids that are not text: '' / 0 / 5 vs '5' / "
+        "a definition without id), hrefs plain / './' / 'sub/' / '../' / absolute / missing, two working directories, objects built "
+        "by constructors / read back from a file (parent_object_, shared gds_collector_) / mixed / aliased / object GRAPHS (one "
+        "object in two places: definition = embedded element, one element in two cells, one Segment / list / MembraneProperties in "
+        "two elements, an alias inside one element, a cell listed twice; back references as the reader sets them, on the "
+        "definitions only, or pointing at the document from inside an element); each case is run with overwrite=True and "
+        "overwrite=False and compared with TWO models (tree model of the first pass; object-graph heap model, which is also "
+        "proved equal to the program translated from the source) incl. the number of objects every deepcopy call allocated. "
+        "Non-trivial = at least two cells share one reference that resolves; distinct = distinct canonical (case, overwrite) "
+        "descriptions. Second stream: NeuroMLXMLParser.parse on files with nested includes and one population per cell (the "
+        "handler must be given resolved cells).")
 TRUST = [
-    "hand-written model of utils.fix_external_morphs_biophys_in_cell (repaired tree), tied by correspondence only",
-    "copy.deepcopy is modelled (fresh object per object, memo for the parent reference), not verified",
-    "reading an included file is modelled as allocation of fresh objects from a template obtained with the same loader",
+    "object-graph model FixExternalH.fixExternal: proved equal (Props/C17Gen.lean) to the program py2lean_fixexternal.py translates "
+    "from neuroml/utils.py on every run; the meaning of the ~30 statement/expression forms of Model/FixIR.lean is hand-given",
+    "tree model FixExternal.fixExternal (first pass): hand-written, tied by correspondence only",
+    "copy.deepcopy is modelled (Model/PyHeap.lean: memo, depth-first, an object before its contents), not verified; compared "
+    "with CPython's on every case: resulting graph and number of objects allocated",
+    "reading an included file is modelled as allocation of the object graph the same loader produced for the harness",
 ]
 ASSUMPTIONS = [
-    "the document is a tree: no object is reachable twice (c17_independent assumes doc.ids.Nodup); documents in which a cell embeds the very object that is also a top-level definition are generated for the oracle and for the overwrite=True correspondence only",
-    "parent_object_ of an object below a document is None or its container (what constructors and the XML reader produce); "
-    "for overwrite=False on documents holding elements read from another document the parent references of the returned copy are not compared",
-    "every <include> of the document names a readable NeuroML XML file, else the loader calls sys.exit() (modelled, theorem "
-    "c17_unreadable_include; outside the property); includes of included files are not followed by the function",
-    "ids are strings",
+    "graph theorems: none about the shape of the object graph; WF (no dangling reference) and 'the document is an object of the "
+    "heap' where stated (c17g_overwrite_frame, c17g_copies_independent_overwrite); tree theorems (Props/C17.lean): doc.ids.Nodup",
+    "what the heap model does not see: objects that are neither generateDS/neuroml objects, lists, dicts nor lxml elements are opaque "
+    "primitives; attributes whose value is None are omitted except the seven the function reads or writes",
+    "every <include> of the document names a readable NeuroML file (XML, or HDF5 that holds a network), else the loader calls "
+    "sys.exit() (modelled, theorem c17_unreadable_include; outside the property); includes of included files are not followed by the function",
+    "ids are compared the way Python compares them for str / int / None (bool, float ids are not generated)",
 ]
 
 SKIP = ("parent_object_", "gds_collector_", "gds_elementtree_node_")
 KNOWN_DOC_LISTS = ("includes", "morphology", "biophysical_properties", "cells", "cell2_ca_poolses")
 IDS = ["m1", "m2", "b1", "x", "a b", "m-1.x", "ü"]
+ODD_IDS = ["", 5, 0, "5", "None"]          # empty text, non-text ids (equal to their text only after a trip through a file)
 
 
 def GDS():
@@ -111,8 +132,18 @@ def mk_doc(d, root, with_net=False):
             doc.cells.append(mk_cell(s))
     if with_net or d.get("net"):
         net = n.Network(id="net")
-        comp = d["cells"][0]["id"] if d["cells"] else "none"
+        comp = d["cells"][0]["id"] if d.get("cells") else "none"
         net.populations.append(n.Population(id="pop", component=comp, size=2))
+        if with_net == "all":
+            # one population per cell, alternately a populationList with an instance and a plain sized one: parse()
+            # hands each cell object to the network handler
+            for k, c in enumerate(d.get("cells", [])):
+                if k % 2 == 0:
+                    pop = n.Population(id="pop_%s" % c["id"], component=c["id"], type="populationList", size=1)
+                    pop.instances.append(n.Instance(id=0, location=n.Location(x=0.0, y=0.0, z=0.0)))
+                else:
+                    pop = n.Population(id="pop_%s" % c["id"], component=c["id"], size=2)
+                net.populations.append(pop)
         doc.networks.append(net)
     return doc
 
@@ -124,10 +155,18 @@ def materialise(case, root):
         os.makedirs(os.path.join(root, sd), exist_ok=True)
     table = {}
     for f in case["files"]:
+        h5 = f["path"].endswith(".h5")
         doc = mk_doc({"id": "inc", "includes": f.get("includes", []), "morphs": f["morphs"], "bios": f["bios"],
-                      "cells": f.get("cells", [])}, root)
+                      "cells": f.get("cells", [])}, root, with_net=h5)
         p = os.path.join(root, f["path"])
-        w.NeuroMLWriter.write(doc, p)
+        if h5:
+            # the HDF5 loader (optimized=True) needs a network in the file
+            import contextlib
+            import io
+            with contextlib.redirect_stdout(io.StringIO()):
+                w.NeuroMLHdf5Writer.write(doc, p)
+        else:
+            w.NeuroMLWriter.write(doc, p)
         table[os.path.normpath(f["path"])] = f
     return table
 
@@ -151,6 +190,8 @@ def build_input(case, root):
                 byid[spec["id"]].morphology = doc.morphology[0]
             if spec.get("alias_b") and doc.biophysical_properties:
                 byid[spec["id"]].biophysical_properties = doc.biophysical_properties[-1]
+    elif origin == "graph":
+        graphify(doc, case.get("graph", {}))
     elif origin == "mixed":
         # constructor-built document whose top-level definitions were read from another document
         p = os.path.join(root, "work", "donor_doc.nml")
@@ -160,6 +201,60 @@ def build_input(case, root):
         doc.morphology = list(donor.morphology)
         doc.biophysical_properties = list(donor.biophysical_properties)
     return doc, keep
+
+
+def set_parents(o, parent, seen=None):
+    """parent_object_ the way the XML reader sets it: every object points back to its container"""
+    G = GDS()
+    seen = seen if seen is not None else set()
+    if id(o) in seen:
+        return
+    seen.add(id(o))
+    if isinstance(o, G):
+        if parent is not None:
+            o.parent_object_ = parent
+        for k, v in list(o.__dict__.items()):
+            if k in SKIP:
+                continue
+            if isinstance(v, G):
+                set_parents(v, o, seen)
+            elif isinstance(v, list):
+                for x in v:
+                    if isinstance(x, G):
+                        set_parents(x, o, seen)
+
+
+def graphify(doc, g):
+    """turn a constructor-built document into an object GRAPH: shared sub-objects, shared lists, back references, one
+    object in two places (flags in `g`; each is applied when the document has what it needs)"""
+    ms = [m for m in doc.morphology]
+    bs = [b for b in doc.biophysical_properties]
+    cells = list(doc.cells)
+    if g.get("def_in_cell") and ms and cells:
+        # a cell embeds the very object that is also a top-level definition
+        cells[-1].morphology = ms[0]
+    if g.get("def_in_cell_b") and bs and cells:
+        cells[0].biophysical_properties = bs[-1]
+    if g.get("share_seg") and len(ms) >= 2 and ms[0].segments:
+        ms[1].segments.insert(0, ms[0].segments[0])          # one Segment object in two morphologies
+    if g.get("share_list") and len(ms) >= 2:
+        ms[1].segment_groups = ms[0].segment_groups           # one list object in two morphologies
+    if g.get("share_mp") and len(bs) >= 2:
+        bs[1].membrane_properties = bs[0].membrane_properties
+    if g.get("share_point") and ms and len(ms[0].segments) >= 2:
+        ms[0].segments[1].proximal = ms[0].segments[0].distal  # alias inside one element
+    if g.get("two_cells_one_elem") and len(cells) >= 2 and cells[0].morphology is not None:
+        cells[1].morphology = cells[0].morphology
+    if g.get("cell_twice") and cells:
+        doc.cells.append(cells[0])
+    if g.get("parents") == "wellformed":
+        set_parents(doc, None)
+    elif g.get("parents") == "defs-only":
+        for e in ms + bs:
+            e.parent_object_ = doc
+    elif g.get("parents") == "foreign" and ms and ms[0].segments:
+        # a contained object points at the document although its element does not: deepcopy follows it
+        ms[0].segments[-1].parent_object_ = doc
 
 
 # ---------------------------------------------------------------- snapshots
@@ -198,16 +293,20 @@ def prims_of(o, drop=()):
     return "%s(%s)" % (type(o).__name__, ";".join(out))
 
 
+def enc_id(v):
+    return enc(v) if v is not None else "N"
+
+
 def esnap(e):
-    return {"id": e.id, "obj": osnap(e, "")}
+    return {"id": enc_id(e.id), "obj": osnap(e, "")}
 
 
 def csnap(c):
     par = getattr(c, "parent_object_", None)
     return {"o": id(c), "p": (id(par) if par is not None else None),
             "s": prims_of(c, drop=("morphology_attr", "biophysical_properties_attr")),
-            "m": {"attr": c.morphology_attr, "elem": esnap(c.morphology) if c.morphology is not None else None},
-            "b": {"attr": c.biophysical_properties_attr,
+            "m": {"attr": enc(c.morphology_attr), "elem": esnap(c.morphology) if c.morphology is not None else None},
+            "b": {"attr": enc(c.biophysical_properties_attr),
                   "elem": esnap(c.biophysical_properties) if c.biophysical_properties is not None else None}}
 
 
@@ -330,6 +429,177 @@ def full_dump(doc):
     return go(doc)
 
 
+
+# ---------------------------------------------------------------- object-graph snapshots (Model/PyHeap.lean)
+KEEP_NONE = ("parent_object_", "id", "morphology_attr", "morphology", "biophysical_properties_attr",
+             "biophysical_properties", "href")
+
+
+def enc(v):
+    """a primitive value as tagged text (type and value: `5` and `'5'` differ); None stays None"""
+    if v is None:
+        return None
+    if isinstance(v, str):
+        return "s:" + v
+    if isinstance(v, bool):
+        return "b:%r" % v
+    if isinstance(v, int):
+        return "i:%d" % v
+    if isinstance(v, float):
+        return "f:%r" % v
+    return "o:%s" % type(v).__name__
+
+
+def is_node(v):
+    """does the heap model treat `v` as an object with identity (everything else is an opaque primitive)"""
+    if isinstance(v, (list, dict)):
+        return True
+    mod = type(v).__module__ or ""
+    if mod.startswith("neuroml") and hasattr(v, "__dict__"):
+        return True
+    return mod.startswith("lxml") and type(v).__name__ == "_Element"
+
+
+def node_of(o):
+    """(class text, [(field, python value)]) in the order deepcopy walks them"""
+    if isinstance(o, list):
+        return "list", [("", x) for x in o]
+    if isinstance(o, dict):
+        return "dict", [(repr(k), x) for k, x in o.items()]
+    if hasattr(o, "__dict__"):
+        return type(o).__name__, [(k, v) for k, v in o.__dict__.items() if v is not None or k in KEEP_NONE]
+    return "lxml:" + str(getattr(o, "tag", "?")), []
+
+
+def hsnap(roots, table, objs, nodes):
+    """extend the heap snapshot by everything reachable from `roots`: table = {id(obj): index}, objs = [obj] (keeps the
+    objects alive so that id()s stay unique), nodes = {index: {"c":..,"f":[[name, val]]}} is (re)written for every
+    object visited in this walk.  New objects are numbered in depth-first first-visit order."""
+    seen = set()
+
+    def num(o):
+        i = table.get(id(o))
+        if i is None:
+            i = len(objs)
+            table[id(o)] = i
+            objs.append(o)
+        return i
+
+    stack = [("root", r) for r in reversed(roots)]
+    # iterative depth-first walk, object before its contents, contents in field order
+    while stack:
+        _, o = stack.pop()
+        i = num(o)
+        if i in seen:
+            continue
+        seen.add(i)
+        cls, fields = node_of(o)
+        fl = []
+        kids = []
+        for k, v in fields:
+            if is_node(v):
+                fl.append([k, ("ref", v)])
+                kids.append(v)
+            else:
+                fl.append([k, enc(v)])
+        nodes[i] = {"c": cls, "f": fl}
+        for v in reversed(kids):
+            if table.get(id(v)) is None or table[id(v)] not in seen:
+                stack.append(("kid", v))
+    return seen
+
+
+def hfinish(nodes, table):
+    """resolve the ("ref", obj) placeholders to indices"""
+    out = {}
+    for i, nd in nodes.items():
+        out[i] = {"c": nd["c"], "f": [[k, (table[id(v[1])] if isinstance(v, tuple) else v)] for k, v in nd["f"]]}
+    return out
+
+
+def heap_of(root):
+    """fresh snapshot of the graph below `root`: ([node] with root at 0, table, objs)"""
+    table, objs, nodes = {}, [], {}
+    hsnap([root], table, objs, nodes)
+    nd = hfinish(nodes, table)
+    return [nd[i] for i in range(len(objs))], table, objs
+
+
+def canon_heap(nodes, roots, n_old):
+    """renumber the objects >= n_old of a model heap by depth-first first visit from `roots` (old objects keep their
+    numbers); returns {new index: node} of everything reachable"""
+    ren, seen, out = {}, set(), {}
+    nxt = [n_old]
+
+    def num(i):
+        if i < n_old:
+            return i
+        if i not in ren:
+            ren[i] = nxt[0]
+            nxt[0] += 1
+        return ren[i]
+
+    stack = list(reversed(roots))
+    while stack:
+        i = stack.pop()
+        if i in seen:
+            continue
+        seen.add(i)
+        j = num(i)
+        nd = nodes[i] if 0 <= i < len(nodes) else {"c": "<dangling>", "f": []}
+        kids = [v for _, v in nd["f"] if isinstance(v, int) and not isinstance(v, bool)]
+        out[j] = (i, nd)
+        for v in reversed(kids):
+            if v not in seen:
+                stack.append(v)
+    # numbering must follow the visit order: assign in a second pass in visit order
+    res = {}
+    for j, (i, nd) in out.items():
+        res[j] = {"c": nd["c"], "f": [[k, (num(v) if isinstance(v, int) and not isinstance(v, bool) else v)] for k, v in nd["f"]]}
+    return res
+
+
+class DeepcopySpy:
+    """counts the objects each top-level `copy.deepcopy` call made during the real function (structural cost measure:
+    a change that copies more than the element - e.g. the document behind `parent_object_` - shows here without a
+    timeout).  Recursive calls inside `copy` use their own reference and are not intercepted."""
+
+    def __init__(self):
+        self.counts = []
+
+    def __enter__(self):
+        self.orig = copy.deepcopy
+        spy = self
+
+        def deepcopy(x, memo=None, _nil=[]):
+            if memo is None:
+                memo = {}
+            n_before = len(memo)
+            keep0 = memo.get(id(memo))
+            k_before = len(keep0) if isinstance(keep0, list) else 0
+            r = spy.orig(x, memo)
+            # only what this call added is looked at (dicts keep insertion order; a memo that is - wrongly - kept
+            # between calls can be very large)
+            keep = memo.get(id(memo), [])
+            skip = {id(memo)}
+            for o in keep[k_before:]:
+                d = getattr(o, "__dict__", None)
+                if d is not None:
+                    skip.add(id(d))
+            n_new = len(memo) - n_before
+            cnt = 0
+            for k, v in itertools.islice(reversed(memo.items()), n_new):
+                if k not in skip and is_node(v):
+                    cnt += 1
+            spy.counts.append(cnt)
+            return r
+        copy.deepcopy = deepcopy
+        return self
+
+    def __exit__(self, *a):
+        copy.deepcopy = self.orig
+
+
 # ---------------------------------------------------------------- reference resolution (harness side)
 def resolve_href(case, table, href):
     """file spec that `read_neuroml2_file(href)` reads from the case's working directory, or None"""
@@ -369,6 +639,27 @@ def templates(case, root, table):
     return out
 
 
+def templates_heap(case, root, table):
+    """[[href, [node]]] for the heap model: the object graph the loader makes of each readable include (document at 0)"""
+    import neuroml.loaders as L
+    out, seen = [], set()
+    old = os.getcwd()
+    os.chdir(os.path.join(root, case["cwd"]))
+    try:
+        for h in case["doc"]["includes"]:
+            hh = sub_root(h, root)
+            if hh in seen:
+                continue
+            seen.add(hh)
+            if resolve_href(case, table, h) is None:
+                continue
+            d = L.read_neuroml2_file(hh, verbose=False, optimized=True)
+            out.append([enc(hh), heap_of(d)[0]])
+    finally:
+        os.chdir(old)
+    return out
+
+
 def canon_obj_ids(o, tab):
     """templates carry meaningless identities: small numbers, parent present -> 0"""
     o["o"] = tab.setdefault(o["o"], len(tab))
@@ -392,12 +683,18 @@ def run_real(case, root, overwrite, table):
                 "cells2": [(c, c.morphology, c.biophysical_properties, c.morphology_attr, c.biophysical_properties_attr)
                            for c in doc.cell2_ca_poolses],
                 "morphs": list(doc.morphology), "bios": list(doc.biophysical_properties)}
+    htable, hobjs, hnodes = {}, [], {}
+    hsnap([doc], htable, hobjs, hnodes)
+    hpre = hfinish(hnodes, htable)
+    hn = len(hobjs)
     old = os.getcwd()
     os.chdir(os.path.join(root, case["cwd"]))
     res, arg, ret = "ok", "", None
+    spy = DeepcopySpy()
     try:
         try:
-            ret = fix(doc, overwrite=overwrite)
+            with spy:
+                ret = fix(doc, overwrite=overwrite)
         except KeyError as e:
             res, arg = "KeyError", (e.args[0] if e.args else "")
         except SystemExit:
@@ -406,13 +703,24 @@ def run_real(case, root, overwrite, table):
             res, arg = "exc:" + type(e).__name__, str(e)[:80]
     finally:
         os.chdir(old)
+    hnodes2 = {}
+    hsnap([doc] + ([ret] if (ret is not None and ret is not doc and is_node(ret)) else []), htable, hobjs, hnodes2)
+    hpost = hfinish(hnodes2, htable)
     return {"doc": doc, "keep": keep, "pre": pre, "pre_dump": pre_dump, "pre_tree": pre_tree, "seen_pre": seen_pre,
-            "seen_pre_all": seen_pre_all, "pre_refs": pre_refs, "res": res, "arg": arg, "ret": ret}
+            "seen_pre_all": seen_pre_all, "pre_refs": pre_refs, "res": res, "arg": arg, "ret": ret,
+            "hpre": [hpre[i] for i in range(hn)], "hn": hn, "hpost": hpost, "hobjs": hobjs,
+            "hret": (htable.get(id(ret)) if ret is not None else None), "dc_counts": spy.counts}
 
 
 # ---------------------------------------------------------------- oracle: the property on the real objects
-def spec_defs(case, table, kind):
-    """ids visible to the call for `kind` in ('morphs','bios'): {id: n_definitions}, and whether an include is unreadable"""
+def fid(x):
+    """an id after a trip through a file: text (None stays None: the attribute is not written)"""
+    return None if x is None else str(x)
+
+
+def spec_defs(case, table, kind, local_ids):
+    """ids visible to the call for `kind` in ('morphs','bios'): {id: n_definitions}, and whether an include is unreadable;
+    `local_ids` = ids of the document's own definitions"""
     ids = {}
     unreadable = False
     for h in case["doc"]["includes"]:
@@ -421,9 +729,9 @@ def spec_defs(case, table, kind):
             unreadable = True
             continue
         for s in f[kind]:
-            ids[s["id"]] = ids.get(s["id"], 0) + 1
-    for s in case["doc"][kind]:
-        ids[s["id"]] = ids.get(s["id"], 0) + 1
+            ids[fid(s["id"])] = ids.get(fid(s["id"]), 0) + 1
+    for i in local_ids:
+        ids[i] = ids.get(i, 0) + 1
     return ids, unreadable
 
 
@@ -434,29 +742,31 @@ def slot_kind(c, which):
     return "ref" if a is not None else "none"
 
 
-def classify(case, table):
-    dm, u1 = spec_defs(case, table, "morphs")
-    db, u2 = spec_defs(case, table, "bios")
-    dangling, refs, dangling2, refs2 = [], [], [], []
-    for c in case["doc"]["cells"]:
-        two = c.get("kind") == "Cell2CaPools"
-        for which, defs in (("m", dm), ("b", db)):
-            if slot_kind(c, which) == "ref":
-                a = c["m_attr"] if which == "m" else c["b_attr"]
-                (refs2 if two else refs).append((c["id"], which, a))
-                if a not in defs:
-                    (dangling2 if two else dangling).append(a)
-    return {"dm": dm, "db": db, "unreadable": u1 or u2, "dangling": dangling, "refs": refs,
-            "dangling2": dangling2, "refs2": refs2}
+def classify(case, table, R):
+    """which references the call has to resolve and which of them have no visible definition - read off the real
+    objects as they were handed to the function (`R['pre_refs']`, taken before the call) and the include files' specs"""
+    dm, u1 = spec_defs(case, table, "morphs", [e.id for e in R["pre_refs"]["morphs"]])
+    db, u2 = spec_defs(case, table, "bios", [e.id for e in R["pre_refs"]["bios"]])
+    out = {"dm": dm, "db": db, "unreadable": u1 or u2, "dangling": [], "refs": [], "dangling2": [], "refs2": []}
+    for lst, sfx in (("cells", ""), ("cells2", "2")):
+        for (c, pm, pb, pma, pba) in R["pre_refs"][lst]:
+            for which, defs, pe, pa in (("m", dm, pm, pma), ("b", db, pb, pba)):
+                if pe is None and pa is not None:
+                    out["refs" + sfx].append((c.id, which, pa))
+                    if pa not in defs:
+                        out["dangling" + sfx].append(pa)
+    return out
 
 
 def key_of(prefix, case, overwrite):
-    return "C17:%s:%s:overwrite=%s" % (prefix, case.get("origin", "built"), overwrite)
+    # a failure in the second step of a history gets a key of its own: its replay needs the steps before it
+    origin = "history" if case.get("_history") else case.get("origin", "built")
+    return "C17:%s:%s:overwrite=%s" % (prefix, origin, overwrite)
 
 
 def oracle(ctx, case, root, table, overwrite, R, tmpl, payload):
     """judge one real run by the property statement; `tmpl` = shapes of the file definitions"""
-    cl = classify(case, table)
+    cl = classify(case, table, R)
     doc, ret, res = R["doc"], R["ret"], R["res"]
 
     def fail(prefix, what):
@@ -466,6 +776,12 @@ def oracle(ctx, case, root, table, overwrite, R, tmpl, payload):
     if not overwrite:
         if full_dump(doc) != R["pre_dump"]:
             fail("input-changed", "overwrite=False modified the document passed in")
+        # the same on the object graph: every object reachable from the document before the call (also through
+        # parent_object_ and the shared collector) is the same object with the same fields, every list has the same members
+        changed = [i for i in range(R["hn"]) if R["hpost"].get(i) != R["hpre"][i]]
+        if changed:
+            fail("input-changed", "overwrite=False changed %d object(s) reachable from the document passed in (first: %s)"
+                 % (len(changed), R["hpre"][changed[0]]["c"]))
     if cl["unreadable"]:
         ctx.count("oracle:include-unreadable(outside property)")
         if res != "SystemExit":
@@ -494,7 +810,7 @@ def oracle(ctx, case, root, table, overwrite, R, tmpl, payload):
     cand = {"m": {}, "b": {}}
     for which, lst in (("m", ret.morphology), ("b", ret.biophysical_properties)):
         for e in lst:
-            cand[which].setdefault(e.id, []).append(shape(osnap(e)))
+            cand[which].setdefault(enc_id(e.id), []).append(shape(osnap(e)))
     for _, fd in tmpl:
         for which, k in (("m", "morphs"), ("b", "bios")):
             for e in fd[k]:
@@ -529,7 +845,7 @@ def oracle(ctx, case, root, table, overwrite, R, tmpl, payload):
                 fail("reference-not-cleared", "the reference attribute was not cleared")
             if e.id != pa:
                 fail("wrong-element", "embedded element has id %r, reference was %r" % (e.id, pa))
-            elif shape(osnap(e)) not in cand[which].get(pa, []):
+            elif shape(osnap(e)) not in cand[which].get(enc_id(pa), []):
                 fail("copy-not-equal", "embedded element is not structurally equal to a definition of %r" % pa)
             copies.append((c, which, e))
     # independence: no object (or list) of the result is reachable twice; copies are new objects
@@ -547,7 +863,9 @@ def oracle(ctx, case, root, table, overwrite, R, tmpl, payload):
         if set(ids_post) & set(R["pre_tree"]):
             fail("result-shares-input", "the document returned with overwrite=False shares objects with the input")
     # no stray allocation: everything reachable (also through parent_object_) is the result tree or existed before
-    if overwrite or len(R["seen_pre_all"]) == len(R["seen_pre"]):
+    if case.get("origin") == "graph":
+        ctx.count("oracle:stray-check-skipped(object graph input: what deepcopy drags along is the model's business)")
+    elif overwrite or len(R["seen_pre_all"]) == len(R["seen_pre"]):
         sa = {}
         walk_ids(ret, sa, True)
         stray = [i for i in sa if i not in seen and i not in R["seen_pre_all"]]
@@ -607,12 +925,12 @@ def model_line(pre_c, n, overwrite, tmpl):
 
 def compare(ctx, case, overwrite, R, table_pre, n, mout, payload):
     """correspondence: outcome, state of the input afterwards, returned document - identities by first-visit numbering"""
-    if case.get("origin") == "aliased" and not overwrite:
-        ctx.count("corr-skipped:aliased+overwrite=False (deepcopy memo keeps aliases; the model is over trees)")
+    if case.get("origin") == "graph" or (case.get("origin") == "aliased" and not overwrite):
+        ctx.count("tree-corr-skipped:object graph (compared with the heap model only)")
         return
     ctx.corr_evals += 1
     mixed_copy = (not overwrite) and case.get("origin") == "mixed"
-    real = {"res": R["res"], "arg": R["arg"] if R["res"] == "KeyError" else ""}
+    real = {"res": R["res"], "arg": enc(R["arg"]) if R["res"] == "KeyError" else ""}
     t = dict(table_pre)
     real["input"] = canon(dsnap(R["doc"]), t)
     real["ret"] = canon(dsnap(R["ret"]), t, drop_parents=mixed_copy) if R["res"] == "ok" else None
@@ -638,39 +956,117 @@ def compare(ctx, case, overwrite, R, table_pre, n, mout, payload):
             ctx.disagree("fix-model-writes", payload, sorted(changed), sorted(set(mout["writes"])))
 
 
-def run_cases(ctx, cases):
-    """materialise each case, run the real function twice (overwrite True/False), the model on the same inputs"""
+def ret_graph(R):
+    """the object graph below the returned document, identities by depth-first first visit from it"""
+    top = max(R["hpost"]) + 1 if R["hpost"] else 0
+    nodes = [R["hpost"].get(i, {"c": "<unreachable>", "f": []}) for i in range(top)]
+    return canon_heap([{"c": "<shift>", "f": []}] * 0 + nodes, [R["hret"]], 0)
+
+
+def compare_heap(ctx, case, overwrite, R, mout, payload):
+    """correspondence with the object-graph model: outcome, the whole graph reachable from the document passed in and
+    from the returned one (every object, list, back reference, shared sub-object; identities by first-visit
+    numbering), and the number of objects each deepcopy call allocated"""
+    ctx.corr_evals += 1
+    ctx.count("heap-corr")
+    if "error" in mout or "res" not in mout:
+        ctx.disagree("fix-heap", payload, R["res"], mout)
+        return
+    if mout.get("gen") is not True:
+        ctx.disagree("gen-vs-hand-model", payload, "program generated from utils.py", "differs from FixExternalH.fixExternal on this input")
+    real_o = (R["res"], enc(R["arg"]) if R["res"] == "KeyError" else None)
+    model_o = (mout["res"], mout["arg"] if mout["res"] == "KeyError" else None)
+    if real_o != model_o:
+        ctx.disagree("fix-heap", payload, {"outcome": real_o}, {"outcome": model_o})
+        return
+    nodes = list(R["hpre"])
+    for i, nd in mout["changed"]:
+        nodes[i] = nd
+    nodes = nodes + mout["new"]
+    roots = [0]
+    if mout["res"] == "ok" and mout["ret"] != 0:
+        roots.append(mout["ret"])
+    mc = canon_heap(nodes, roots, R["hn"])
+    rc = R["hpost"]
+    if mc != rc:
+        bad = sorted(set(k for k in set(mc) | set(rc) if mc.get(k) != rc.get(k)))
+        k = bad[0]
+        ctx.disagree("fix-heap", payload, {"object": k, "node": rc.get(k), "objects": len(rc), "differ": len(bad)},
+                     {"object": k, "node": mc.get(k), "objects": len(mc)})
+        return
+    if R["res"] == "ok":
+        ridx = R["hret"]
+        if (ridx == 0) != (mout["ret"] == 0):
+            ctx.disagree("fix-heap", payload, {"ret": ridx}, {"ret": mout["ret"]})
+            return
+    # allocation measure
+    mcounts = ([mout["doccopy"]] if not overwrite and mout["res"] != "stuck" else []) + [c[4] - c[3] for c in mout["copies"]]
+    if R["dc_counts"] != mcounts:
+        ctx.disagree("fix-heap-allocations", payload, R["dc_counts"], mcounts)
+    ctx.count("heap-objects-copied", sum(mcounts))
+
+
+def run_cases(ctx, cases, shared_root=False):
+    """materialise each case, run the real function twice (overwrite True/False), the model on the same inputs.
+    shared_root: the cases form a HISTORY in one process and one directory - each case's files overwrite the previous
+    case's (same paths, same hrefs, other contents); a failure's payload then carries the cases that ran before it"""
     jobs = []
     roots = []
     lines = []
+    hlines = []
     try:
-        for case in cases:
-            root = tempfile.mkdtemp(prefix="verif_c17_")
-            roots.append(root)
+        for k, case in enumerate(cases):
+            if shared_root and roots:
+                root = roots[0]
+            else:
+                root = tempfile.mkdtemp(prefix="verif_c17_")
+                roots.append(root)
+            if shared_root:
+                case["_history"] = [dict((a, b) for a, b in c.items() if a != "_history") for c in cases[:k]]
             table = materialise(case, root)
             tmpl = templates(case, root, table)
+            htmpl = templates_heap(case, root, table)
             for overwrite in (True, False):
                 R = run_real(case, root, overwrite, table)
                 tp = {}
                 pre_c = canon(R["pre"], tp)
                 n = len(tp)
                 lines.append(model_line(pre_c, n, overwrite, tmpl))
+                hlines.append(json.dumps({"heap": R["hpre"], "doc": 0, "overwrite": overwrite, "files": htmpl}))
                 jobs.append((case, root, table, tmpl, overwrite, R, tp, n))
-        rc, out = fw.run_driver("C17", lines)
-        if rc != 0 or len(out) != len(lines):
+        rc, out = fw.run_driver("C17", lines + hlines)
+        if rc != 0 or len(out) != len(lines) + len(hlines):
             ctx.disagree("driver", "driver failed rc=%s" % rc, "\n".join(out[-5:]), None)
             mouts = [{"error": "driver"}] * len(lines)
+            hmouts = [{"error": "driver"}] * len(lines)
         else:
-            mouts = [json.loads(l) for l in out]
+            mouts = [json.loads(l) for l in out[:len(lines)]]
+            hmouts = [json.loads(l) for l in out[len(lines):]]
         results = {}
-        for (case, root, table, tmpl, overwrite, R, tp, n), mout in zip(jobs, mouts):
+        for (case, root, table, tmpl, overwrite, R, tp, n), mout, hmout in zip(jobs, mouts, hmouts):
             payload = {"case": case, "overwrite": overwrite}
-            cl = classify(case, table)
+            if shared_root:
+                ctx.count("history:step-%d" % len(case.get("_history", [])))
+            cl = classify(case, table, R)
             shared = len(cl["refs"]) - len(set((w, a) for (_, w, a) in cl["refs"]))
             nontrivial = shared > 0 and not cl["dangling"] and not cl["unreadable"]
             ctx.seen({"case": case, "overwrite": overwrite}, nontrivial=nontrivial)
             ctx.count("res:" + R["res"])
             ctx.count("origin:" + case.get("origin", "built"))
+            for f in case["files"]:
+                if f["path"].endswith(".h5") and not overwrite:
+                    ctx.count("include-file:hdf5")
+            if not overwrite:
+                allids = [s_["id"] for s_ in case["doc"]["morphs"] + case["doc"]["bios"]] + \
+                         [s_["id"] for f in case["files"] for s_ in f["morphs"] + f["bios"]] + \
+                         [c[k] for c in case["doc"]["cells"] for k in ("m_attr", "b_attr")]
+                if any(i is not None and not isinstance(i, str) or i == "" for i in allids):
+                    ctx.count("ids:non-text-or-empty")
+                if any(s_["id"] is None for s_ in case["doc"]["morphs"] + case["doc"]["bios"]):
+                    ctx.count("ids:definition-without-id")
+                for k, v in (case.get("graph") or {}).items():
+                    if v:
+                        ctx.count("graph:%s%s" % (k, "" if v is True else "=" + str(v)))
             ctx.count("cells:%d" % len([c for c in case["doc"]["cells"] if c.get("kind") != "Cell2CaPools"]))
             for c in case["doc"]["cells"]:
                 ctx.count("slot:" + slot_kind(c, "m"))
@@ -678,6 +1074,7 @@ def run_cases(ctx, cases):
             if shared:
                 ctx.count("shared-reference")
             compare(ctx, case, overwrite, R, tp, n, mout, payload)
+            compare_heap(ctx, case, overwrite, R, hmout, payload)
             R["ret_canon"] = canon(dsnap(R["ret"]), {}, drop_parents=True) if R["res"] == "ok" else None
             oracle(ctx, case, root, table, overwrite, R, tmpl, payload)
             results[(id(case), overwrite)] = R
@@ -695,6 +1092,14 @@ def run_cases(ctx, cases):
                 if a["ret_canon"] != b["ret_canon"]:
                     ctx.fail(key_of("overwrite-result-differs", case, "both"),
                              "the document returned with overwrite=False differs from the overwrite=True result", payload)
+                # ... and as object graphs: everything reachable from the returned document - every member, list, back
+                # reference, shared object - is the same up to identities
+                ga, gb = ret_graph(a), ret_graph(b)
+                if ga != gb:
+                    bad = sorted(k for k in set(ga) | set(gb) if ga.get(k) != gb.get(k))
+                    ctx.fail(key_of("overwrite-result-differs", case, "both"),
+                             "the object graph returned with overwrite=False differs from the overwrite=True one at object %s: %s / %s"
+                             % (bad[0], ga.get(bad[0], {}).get("c"), gb.get(bad[0], {}).get("c")), payload)
         if cases:
             c0 = cases[-1]
             ctx.sample({"cwd": c0["cwd"], "origin": c0.get("origin"), "includes": c0["doc"]["includes"],
@@ -723,7 +1128,7 @@ def run_parse_cases(ctx, cases):
             roots.append(root)
             table = materialise(case, root)
             main = os.path.join(root, "main_net.nml")
-            w.NeuroMLWriter.write(mk_doc(case["doc"], root, with_net=True), main)
+            w.NeuroMLWriter.write(mk_doc(case["doc"], root, with_net="all"), main)
             calls = []
 
             def spy(doc, overwrite=True, _calls=calls):
@@ -744,7 +1149,22 @@ def run_parse_cases(ctx, cases):
             old = os.getcwd()
             os.chdir(os.path.join(root, case["cwd"]))
             res, arg = "ok", ""
-            parser = NeuroMLXMLParser(DefaultNetworkHandler())
+            class RecHandler(DefaultNetworkHandler):
+                """records the state of every cell object parse() hands to the handler, at the time it does"""
+
+                def __init__(self):
+                    DefaultNetworkHandler.__init__(self)
+                    self.pops = []
+
+                def handle_population(self, population_id, component, size=-1, component_obj=None, properties={}, notes=None):
+                    st = None
+                    if component_obj is not None and hasattr(component_obj, "morphology_attr"):
+                        st = (id(component_obj), component_obj.morphology_attr, component_obj.morphology is not None,
+                              component_obj.biophysical_properties_attr, component_obj.biophysical_properties is not None)
+                    self.pops.append((population_id, component, st))
+                    return DefaultNetworkHandler.handle_population(self, population_id, component, size, component_obj,
+                                                                   properties, notes)
+            parser = NeuroMLXMLParser(RecHandler())
             try:
                 try:
                     parser.parse(main)
@@ -793,7 +1213,7 @@ def run_parse_cases(ctx, cases):
             if "error" in mout or "res" not in mout:
                 ctx.disagree("parse-model", payload, res, mout)
             else:
-                real = {"res": res, "arg": arg if res == "KeyError" else "", "doc": call["post"]}
+                real = {"res": res, "arg": enc(arg) if res == "KeyError" else "", "doc": call["post"]}
                 tm = {i: i for i in range(len(call["tp"]))}
                 model = {"res": mout["res"], "arg": mout["arg"] if mout["res"] == "KeyError" else "", "doc": canon(mout["input"], tm)}
                 if real != model:
@@ -835,6 +1255,20 @@ def run_parse_cases(ctx, cases):
             if stray:
                 ctx.fail("C17:parse:stray-allocation", "parse() left %d objects hanging off parent_object_ (copies of the "
                          "whole document per cell; doubles with every cell)" % len(stray), payload)
+            # "before walking the network": every cell object the handler was given was resolved already, and it is the
+            # cell of the document parse() keeps
+            cell_ids = {id(c): c for c in doc.cells}
+            byname = {c.id: c for c in doc.cells}
+            for (pid, comp, st) in parser.netHandler.pops:
+                if comp not in byname:
+                    continue
+                ctx.count("parse:cell-handed-to-handler")
+                if st is None or st[0] not in cell_ids:
+                    ctx.fail("C17:parse:handler-wrong-cell", "the handler was not given the document's cell object for population %s" % pid, payload)
+                    break
+                if (st[1] is not None and not st[2]) or (st[3] is not None and not st[4]):
+                    ctx.fail("C17:parse:handler-saw-unresolved-cell", "parse() walked the network before the references of cell %s were resolved" % comp, payload)
+                    break
     finally:
         U.fix_external_morphs_biophys_in_cell = orig
         for r in roots:
@@ -850,6 +1284,11 @@ def gen_elem(rng, kind, eid, tag):
 
 def gen_case(rng, big=False, parse=False):
     ids = rng.sample(IDS, rng.randint(2, 5))
+    if rng.random() < 0.2:
+        ids += rng.sample(ODD_IDS, rng.randint(1, 3))
+    # a definition without id can never be referred to (not in the parse stream: the loader that merges includes
+    # there sorts by id and raises TypeError, before the function under test is reached)
+    def_ids = ids + ([None] if (not parse and rng.random() < 0.15) else [])
     cwd = rng.choice([".", ".", "sub"])
     if parse:
         cwd = rng.choice([".", "other"])
@@ -858,21 +1297,24 @@ def gen_case(rng, big=False, parse=False):
     dirs = ["", "", "sub/", "other/"]
     for k in range(nfiles):
         d = rng.choice(dirs)
-        f = {"path": "%sinc%d.nml" % (d, k), "morphs": [], "bios": [], "includes": []}
+        ext = ".nml"
+        if not parse and rng.random() < 0.2:
+            ext = rng.choice([".nml.h5", ".h5"])              # HDF5 include: read with optimized=True
+        f = {"path": "%sinc%d%s" % (d, k, ext), "morphs": [], "bios": [], "includes": []}
         for j in range(rng.randint(0, 3)):
-            f["morphs"].append(gen_elem(rng, "m", rng.choice(ids), "file%d.m%d" % (k, j)))
+            f["morphs"].append(gen_elem(rng, "m", rng.choice(def_ids), "file%d.m%d" % (k, j)))
         for j in range(rng.randint(0, 2)):
-            f["bios"].append(gen_elem(rng, "b", rng.choice(ids), "file%d.b%d" % (k, j)))
+            f["bios"].append(gen_elem(rng, "b", rng.choice(def_ids), "file%d.b%d" % (k, j)))
         files.append(f)
     # a file only reachable through another file's include (the function does not follow it; the loader in parse() does)
     nested_ids = []
-    if files and rng.random() < 0.35:
+    if files and rng.random() < 0.35 and not all(f["path"].endswith(".h5") for f in files):
         k = len(files)
         nid = rng.choice(ids + ["nested_only"])
         nested_ids.append(nid)
         nf = {"path": "other/nested%d.nml" % k, "morphs": [gen_elem(rng, "m", nid, "nested.m")],
               "bios": [gen_elem(rng, "b", nid, "nested.b")], "includes": []}
-        host = rng.choice(files)
+        host = rng.choice([f for f in files if not f["path"].endswith(".h5")])
         host["includes"].append("{ROOT}/" + nf["path"] if not parse else os.path.relpath(nf["path"], os.path.dirname(host["path"]) or "."))
         files.append(nf)
     doc = {"includes": [], "morphs": [], "bios": [], "cells": []}
@@ -897,13 +1339,14 @@ def gen_case(rng, big=False, parse=False):
         if rng.random() < 0.12:
             doc["includes"].append(href)                      # the same file included twice
     for j in range(rng.choice([0, 1, 1, 2, 3])):
-        doc["morphs"].append(gen_elem(rng, "m", rng.choice(ids), "local.m%d" % j))
+        doc["morphs"].append(gen_elem(rng, "m", rng.choice(def_ids), "local.m%d" % j))
     for j in range(rng.choice([0, 1, 1, 2])):
-        doc["bios"].append(gen_elem(rng, "b", rng.choice(ids), "local.b%d" % j))
+        doc["bios"].append(gen_elem(rng, "b", rng.choice(def_ids), "local.b%d" % j))
     defined = {"m": [s["id"] for s in doc["morphs"]] + [s["id"] for f in files if not f["path"].startswith("other/nested") for s in f["morphs"]],
                "b": [s["id"] for s in doc["bios"]] + [s["id"] for f in files if not f["path"].startswith("other/nested") for s in f["bios"]]}
     p_dangling = rng.choice([0.0, 0.0, 0.0, 0.1, 0.3])
     ncells = rng.randint(0, 8 if big else 5)
+    defined = {w: [x for x in v if x is not None] for w, v in defined.items()}
     shared_target = {"m": rng.choice(defined["m"]) if defined["m"] else None,
                      "b": rng.choice(defined["b"]) if defined["b"] else None}
     for k in range(ncells + rng.choice([0, 0, 0, 1, 2])):
@@ -930,14 +1373,26 @@ def gen_case(rng, big=False, parse=False):
             c["b_attr"], c["b_elem"] = None, None
         doc["cells"].append(c)
     origin = rng.choice(["built", "built", "loaded", "loaded", "mixed"])
-    if not parse and rng.random() < 0.08:
+    graph = None
+    if not parse and rng.random() < 0.15:
+        origin = "graph"
+        flags = ["def_in_cell", "def_in_cell_b", "share_seg", "share_list", "share_mp", "share_point", "two_cells_one_elem", "cell_twice"]
+        graph = {f: True for f in rng.sample(flags, rng.randint(0, 3))}
+        graph["parents"] = rng.choice([None, "wellformed", "wellformed", "defs-only", "foreign"])
+        if graph["parents"] == "foreign" or (graph.get("share_seg") and graph["parents"] == "wellformed"):
+            # deepcopy drags the document (or the other morphology) along, once more with every copy: keep it small
+            doc["cells"] = doc["cells"][:3]
+    elif not parse and rng.random() < 0.08:
         origin = "aliased"
         for c in doc["cells"]:
             if c["m_elem"] is not None and rng.random() < 0.7:
                 c["alias_m"] = True
             if c["b_elem"] is not None and rng.random() < 0.7:
                 c["alias_b"] = True
-    return {"files": files, "doc": doc, "cwd": cwd, "origin": origin}
+    case = {"files": files, "doc": doc, "cwd": cwd, "origin": origin}
+    if graph is not None:
+        case["graph"] = graph
+    return case
 
 
 def E(kind, eid, tag, **kw):
@@ -987,10 +1442,73 @@ CORPUS = [
     {"files": [], "cwd": ".", "origin": "aliased",
      "doc": {"includes": [], "morphs": [E("m", "m1", "local")], "bios": [],
              "cells": [C("c0", m_attr="m1"), dict(C("c1", m_elem=E("m", "m1", "local")), alias_m=True), C("c2", m_attr="m1")]}},
+    # second pass: definitions in an included HDF5 file (read with optimized=True), from another working directory
+    {"files": [{"path": "sub/inc0.nml.h5", "morphs": [E("m", "m1", "h5file")], "bios": [E("b", "b1", "h5file")], "includes": []},
+               {"path": "inc1.h5", "morphs": [E("m", "m1", "h5file2", nseg=1)], "bios": [], "includes": []}],
+     "cwd": "sub", "origin": "built",
+     "doc": {"includes": ["inc0.nml.h5", "../inc1.h5"], "morphs": [], "bios": [],
+             "cells": [C("c0", m_attr="m1", b_attr="b1"), C("c1", m_attr="m1")]}},
+    # ids that are not text: 5 and "5" are different keys in memory, "" and 0 are references (not None), a definition without id
+    {"files": [], "cwd": ".", "origin": "built",
+     "doc": {"includes": [], "morphs": [E("m", 5, "int"), E("m", "5", "text", nseg=1), E("m", "", "empty", nseg=3), E("m", None, "noid")],
+             "bios": [E("b", 0, "zero")],
+             "cells": [C("c0", m_attr=5, b_attr=0), C("c1", m_attr="5"), C("c2", m_attr=""), C("c3", m_attr=5)]}},
+    # ... and a text reference to an id that is only defined as a number: KeyError('5'); after a trip through a file it resolves
+    {"files": [], "cwd": ".", "origin": "built",
+     "doc": {"includes": [], "morphs": [E("m", 5, "int")], "bios": [], "cells": [C("c0", m_attr=5), C("c1", m_attr="5")]}},
+    {"files": [{"path": "inc0.nml", "morphs": [E("m", 5, "int-in-file")], "bios": [], "includes": []}], "cwd": ".", "origin": "loaded",
+     "doc": {"includes": ["inc0.nml"], "morphs": [], "bios": [], "cells": [C("c0", m_attr=5), C("c1", m_attr="5")]}},
+    # object graphs: back references everywhere, an alias inside the element, the same cell listed twice
+    {"files": [], "cwd": ".", "origin": "graph", "graph": {"parents": "wellformed", "share_point": True, "cell_twice": True},
+     "doc": {"includes": [], "morphs": [E("m", "m1", "local", nseg=3)], "bios": [E("b", "b1", "local")],
+             "cells": [C("c0", m_attr="m1", b_attr="b1"), C("c1", m_attr="m1")]}},
+    # one Segment object in two morphologies, one list object in two morphologies, one MembraneProperties in two biophysics
+    {"files": [], "cwd": ".", "origin": "graph", "graph": {"parents": None, "share_seg": True, "share_list": True, "share_mp": True},
+     "doc": {"includes": [], "morphs": [E("m", "m1", "a"), E("m", "m2", "b")], "bios": [E("b", "b1", "a"), E("b", "b2", "b")],
+             "cells": [C("c0", m_attr="m1", b_attr="b1"), C("c1", m_attr="m2", b_attr="b2"), C("c2", m_attr="m2", b_attr="b1")]}},
+    # the shared Segment points back to the first morphology: copying the second drags the first along
+    {"files": [], "cwd": ".", "origin": "graph", "graph": {"parents": "wellformed", "share_seg": True},
+     "doc": {"includes": [], "morphs": [E("m", "m1", "a"), E("m", "m2", "b")], "bios": [],
+             "cells": [C("c0", m_attr="m2"), C("c1", m_attr="m2")]}},
+    # a Segment whose parent_object_ is the document although its morphology has none: every copy drags a copy of the document
+    {"files": [], "cwd": ".", "origin": "graph", "graph": {"parents": "foreign"},
+     "doc": {"includes": [], "morphs": [E("m", "m1", "a")], "bios": [], "cells": [C("c0", m_attr="m1"), C("c1", m_attr="m1")]}},
+    # one Morphology object referenced from three places (definition, two cells), a third cell refers to it by id
+    {"files": [], "cwd": ".", "origin": "graph", "graph": {"parents": "defs-only", "def_in_cell": True, "two_cells_one_elem": True},
+     "doc": {"includes": [], "morphs": [E("m", "m1", "a")], "bios": [],
+             "cells": [C("c0", m_elem=E("m", "own", "own")), C("c1", m_attr="m1"), C("c2")]}},
     # KNOWN FINDING C17:cell2capools-not-resolved
     {"files": [], "cwd": ".", "origin": "built",
      "doc": {"includes": [], "morphs": [E("m", "m1", "local")], "bios": [],
              "cells": [C("c0", m_attr="m1"), C("cc", m_attr="m1", kind="Cell2CaPools")]}},
+]
+
+def rewrite_files(rng, case):
+    """the same case with every included file rewritten: same paths, definitions changed (other tags and sizes, one id
+    renamed or dropped)"""
+    c = json.loads(json.dumps(case))
+    c.pop("_history", None)
+    for f in c["files"]:
+        for kind, key in (("m", "morphs"), ("b", "bios")):
+            for e in f[key]:
+                e["tag"] = e["tag"] + ".v2"
+                if kind == "m":
+                    e["nseg"] = (e.get("nseg", 1) + 2) % 5
+                else:
+                    e["nchan"] = (e.get("nchan", 1) + 1) % 3
+            if f[key] and rng.random() < 0.3:
+                f[key].pop(rng.randrange(len(f[key])))
+    return c
+
+
+HISTORY_CORPUS = [
+    # the included file is rewritten between two calls in one process: the second call must embed what the file holds now
+    [{"files": [{"path": "inc0.nml", "morphs": [E("m", "m1", "v1", nseg=1)], "bios": [E("b", "b1", "v1")], "includes": []}],
+      "cwd": ".", "origin": "built",
+      "doc": {"includes": ["inc0.nml"], "morphs": [], "bios": [], "cells": [C("c0", m_attr="m1", b_attr="b1")]}},
+     {"files": [{"path": "inc0.nml", "morphs": [E("m", "m1", "v2", nseg=3)], "bios": [], "includes": []}],
+      "cwd": ".", "origin": "built",
+      "doc": {"includes": ["inc0.nml"], "morphs": [], "bios": [], "cells": [C("c0", m_attr="m1", b_attr="b1")]}}],
 ]
 
 PARSE_CORPUS = [
@@ -1008,18 +1526,40 @@ PARSE_CORPUS = [
 
 def run(ctx):
     big = ctx.tier == "thorough"
-    n = ctx.n(500, 2500) * ctx.search_mult
+    # a broken obligation widens the search (fw: x10); x3 keeps a run on a changed tree within minutes (a case costs
+    # ~0.06 s here: two real runs, four snapshots, two models)
+    mult = min(ctx.search_mult, 3)
+    n = ctx.n(500, 2500) * mult
     cases = [json.loads(json.dumps(c)) for c in CORPUS]
     for _ in range(n):
         cases.append(gen_case(ctx.rng, big=big))
     for i in range(0, len(cases), 60):
         run_cases(ctx, cases[i:i + 60])
-    pn = ctx.n(100, 400) * ctx.search_mult
+    # histories: the same document again after the included files were rewritten in place (same hrefs, other contents)
+    hist = [json.loads(json.dumps(h)) for h in HISTORY_CORPUS]
+    for _ in range(ctx.n(40, 200) * mult):
+        c = gen_case(ctx.rng, big=False)
+        if c["files"] and c.get("origin") != "graph":
+            hist.append([c, rewrite_files(ctx.rng, c)])
+    for h in hist:
+        run_cases(ctx, h, shared_root=True)
+    pn = ctx.n(100, 400) * mult
     pcases = [json.loads(json.dumps(c)) for c in PARSE_CORPUS]
     for _ in range(pn):
         pcases.append(gen_case(ctx.rng, big=False, parse=True))
     for i in range(0, len(pcases), 60):
         run_parse_cases(ctx, pcases[i:i + 60])
+
+
+def regenerate(ctx):
+    """translator step: `fix_external_morphs_biophys_in_cell` and `_deepcopy_into` of the CURRENT working tree
+    (neuroml/utils.py) -> lean/NmlVerif/Gen/FixExternal.lean; Props/C17Gen.lean proves the result equal to the hand
+    model over the object-graph heap"""
+    tdir = os.path.join(fw.VERIF, "translators")
+    if tdir not in sys.path:
+        sys.path.insert(0, tdir)
+    import py2lean_fixexternal
+    return py2lean_fixexternal.regenerate(fw.REPO, os.path.join(fw.LEAN, "NmlVerif", "Gen", "FixExternal.lean"))
 
 
 def replay(ctx, payload):
@@ -1030,6 +1570,8 @@ def replay(ctx, payload):
     with contextlib.redirect_stdout(io.StringIO()), contextlib.redirect_stderr(io.StringIO()):   # the library prints
         if isinstance(c, dict) and c.get("stream") == "parse":
             run_parse_cases(ctx, [case])
+        elif isinstance(case, dict) and case.get("_history"):
+            run_cases(ctx, [json.loads(json.dumps(h)) for h in case["_history"]] + [case], shared_root=True)
         else:
             run_cases(ctx, [case])
     return {"fails": bool(ctx.failures or ctx.corr_disagreements), "failures": [{"key": f["key"], "what": f["what"]} for f in ctx.failures],
